@@ -84,7 +84,8 @@ def replay(payload):
     return check(payload["case"])["fails"]
 
 
-SAFETY_NATIVE = ("c-runtime:", "c-input-modified", "c-nonzero-return", "llvm-crash", "llvm-nonzero-return")
+SAFETY_NATIVE = ("c-runtime:", "c-input-modified", "c-nonzero-return", "llvm-crash", "llvm-nonzero-return",
+                 "llvm-writes-past-allocation")
 
 
 def run(chk):
